@@ -152,6 +152,27 @@ HARNESS(dispatch_routes_by_kind, 9, [str::to_lowercase => lower_ascii]) {
 '''
 
 
+LANG_HARNESS = r'''
+fn normalise(name: String, value: String) -> Result<String> {
+    let mut value = value;
+    LANG_BLOCK
+    Ok(value)
+}
+// K-C12-c: the documented normalisation of language tags: only the first two '-'-separated parts are kept; a first part that is not
+// two letters is rejected; "Auto" is kept for Language and rejected for LanguageAuto
+fn check(is_language_auto: bool, value: &str, want: Option<&[u8]>) {
+    let r = if is_language_auto { normalise("LanguageAuto".to_string(), value.to_string()) } else { normalise("Language".to_string(), value.to_string()) };
+    match (r, want) {
+        (Ok(v), Some(w)) => { assert!(v.as_bytes() == w, "language tag is not normalised to language[-country]"); core::mem::forget(v); }
+        (Ok(v), None) => { assert!(false, "an ill-formed language tag (or LanguageAuto=Auto) was accepted"); core::mem::forget(v); }
+        (Err(_), Some(_)) => assert!(false, "a well-formed language tag was rejected"),
+        (Err(_), None) => {}
+    }
+}
+CASES
+'''
+
+
 def api_panic(vals=None, out=None):
     res = mcprobe([("pref", "Verbosity true"), ("pref", "Verbosity Terse"), ("getpref", "Verbosity"), ("pref", "Blind yes"), ("pref", "Bookmark abc")])
     bad = [r for r in res if r[0] not in ("OK", "ERR")]
@@ -179,7 +200,7 @@ def build(run):
 
 def _build(run, crate_name, only_kernel=False):
     run.outside += ["persistence across set_mathml and effects on outputs (whole session)", "prefs.yaml re-reading, file selection (file system)",
-                    "Language / LanguageAuto normalisation (string splitting before the kernel)"]
+                    ]
     prefs = slicer.Source.get("src/prefs.rs")
     itf = slicer.Source.get("src/interface.rs")
     imp = prefs.find("impl PreferenceManager")
@@ -234,15 +255,20 @@ def _build(run, crate_name, only_kernel=False):
         return crate, lemmas
     run.kani(crate, lemmas, timeout=900)
 
-    # ---- Z-C12-b: the locale table of set_separators is closed under the normalisation applied to language tags ----------
-    setsep = imp.find("fn set_separators")
-    keys = tables.phf_set_keys(setsep.find("static USE_DECIMAL_SEPARATOR"))
-    run.uses(setsep)
-    if len(keys) < 20:
-        raise slicer.SliceError("USE_DECIMAL_SEPARATOR: %d keys" % len(keys))
-    shape = '(re.union ((_ re.loop 2 3) (re.range "a" "z")) (re.++ ((_ re.loop 2 3) (re.range "a" "z")) (str.to_re "-") (re.+ (re.union (re.range "a" "z") (re.range "0" "9")))))'
-    q = "(declare-const k String)\n(assert (or %s))\n(assert (not (str.in_re k %s)))" % (" ".join("(= k %s)" % smt_str(x) for x in keys), shape)
-    run.smt("Z-C12-b.decimal_separator_keys_reachable", q, get=("k",),
-            witness=lambda m: ("locale-key:" + m["k"], "key %r of USE_DECIMAL_SEPARATOR can never match a lower-cased ll / ll-cc language tag" % m["k"], {}),
-            vacuity="(declare-const k String)\n(assert (or %s))" % " ".join("(= k %s)" % smt_str(x) for x in keys),
-            claim="every key of USE_DECIMAL_SEPARATOR is lower case and of the form ll or ll-cc (so the lower-cased tag set_separators looks up can match it)")
+    # ---- K-C12-c: normalisation of Language / LanguageAuto values (the block of set_preference before the kernel) ------------------
+    lang_block = sp.find_expr('if name == "Language" || name == "LanguageAuto"')
+    run.uses(lang_block)
+    cases = [("auto", "Auto", 'if la { None } else { Some(b"Auto") }'), ("one_letter", "e-us", "None"), ("three_parts", "en-us-ny", 'Some(b"en-us")'),
+             ("plain", "en", 'Some(b"en")'), ("numeric_region", "es-419", 'Some(b"es-419")'), ("three_letters", "eng", "None")]
+    case_text = "\n".join('HARNESS(language_tag_%s, 14) {\n    let la = sym::bool();\n    cover!(la, "LanguageAuto reachable");\n    check(la, "%s", %s);\n}' % c for c in cases)
+    crate_l = kani_run.Crate("c12lang", "pub type Result<T> = core::result::Result<T, ()>;\nmacro_rules! bail { ($($t:tt)*) => { return Err(()) }; }\n" +
+                             LANG_HARNESS.replace("LANG_BLOCK", lang_block.text).replace("CASES", case_text))
+    run.bound("K-C12-c", "Language / LanguageAuto x value in {Auto, e-us, en-us-ny, en, es-419, eng}: one harness per value (every path on literals), the preference name symbolic")
+
+    def api_lang(vals, out):
+        res = mcprobe([("pref", "Language en-us-nyc"), ("getpref", "Language"), ("pref", "Language e"), ("pref", "LanguageAuto Auto")])
+        bad = res[1] != ("OK", "en-us") or res[2][0] != "ERR" or res[3][0] != "ERR"
+        return bad, {"script": "set_preference(Language, en-us-nyc); get_preference(Language); (Language, e); (LanguageAuto, Auto)", "results": res}
+    run.kani(crate_l, [dict(id="K-C12-c.language_tag." + c[0], harness="language_tag_" + c[0], api=api_lang, role=lambda v, o: "language-normalisation",
+                            covers=["LanguageAuto reachable"],
+                            claim="the Language block maps %r to %s (kept: language[-country]; rejected: language part not two letters, LanguageAuto=Auto)" % (c[1], c[2])) for c in cases], timeout=600)
